@@ -180,6 +180,8 @@ class Exec:
         self._req_of_event = {}
         self._pl_entering = set()
         self.ex_stack = {}
+        self.pool_keys = {}
+        self.pool_objs = {}
         self.tl_entered = set()  # (tid, req id) whose thread-level frame exists
         self.npids = case["nprocs"]
         for i, t in enumerate(case["threads"]):
@@ -248,6 +250,21 @@ class Exec:
         if desc[0] == "lockf":
             return ("pl", ["lockf", vt.proc, vt.tid])
         return None
+
+    def replay_pool(self, vt, ev):
+        """Keyed reference pools: replay enter/exit on the Lean pool model, compare entries and refcounts
+        (objects are identified by creation order within the pool)."""
+        kind, name, key, obj = ev
+        pool_id = vt.proc * 3 + {"thread": 0, "proc": 1, "fd": 2}[name]
+        keys = self.pool_keys.setdefault(pool_id, {})
+        kid = keys.setdefault(key, len(keys))
+        ans = self.drv.ask(["pool", pool_id, "enter" if kind == "pool-enter" else "exit", vt.tid, kid])
+        self.tags.add("pool:" + name)
+        if ans[0] != "ok":
+            self.k.append(f"pool {name} {kind} key {key!r}: model {ans}")
+            return None
+        model = sorted((int(k), int(n)) for k, _o, n in ans[1][0])
+        return (pool_id, name, model)
 
     def tl_key(self, vt, req):
         return vt.proc * 10 + req["path"]
@@ -561,7 +578,24 @@ class Exec:
         """The exclusive thread-level exit has no scheduling point of its own; the observer wrapped around
         thread_level_lock tells when it happened, and it is replayed on the model here."""
         evs, vt.events = vt.events, []
-        for kind, key, shared in evs:
+        touched = {}
+        for ev in evs:
+            if ev[0].startswith("pool-"):
+                r = self.replay_pool(vt, ev)
+                if r is not None:
+                    touched[r[0]] = r
+        # all pool operations of this step have been replayed: compare each touched pool once
+        for pool_id, name, model in touched.values():
+            keys = self.pool_keys[pool_id]
+            ns = self.rt.procs[vt.proc]
+            real_pool = ns[{"thread": "_thread_level_lock_ref", "proc": "_process_level_lock_ref", "fd": "_fd_ref"}[name]]
+            real = sorted((keys.get(k, -1), rc) for k, (o, rc) in real_pool._refs.items())
+            if real != model:
+                self.k.append(f"pool {name} of process {vt.proc}: model (key, refcount) {model} real {real}")
+        for ev in evs:
+            if ev[0].startswith("pool-"):
+                continue
+            kind, key, shared = ev
             if kind != "tl-exit" or shared:
                 continue
             stack = self.ex_stack.get(vt.tid, [])
